@@ -48,6 +48,7 @@ var (
 	pIter1 = []string{"C17"}
 	pSeq   = []string{"C01", "C13", "C02"}
 	pSet   = []string{"C02"}
+	pSort  = []string{"C09"}
 	pSeq1  = []string{"C01"}
 	pStk   = []string{"C13"}
 )
@@ -67,14 +68,22 @@ var selection = concat(
 	sels("collection/stack.go", "stack_", pStk, "AddValue", "RemoveTop", "GetCapacity", "RemoveAll", "GetSize", "IsEmpty", "AsArray"),
 	sels("collection/list.go", "list_", pSeq, "InsertValue", "RemoveValue", "RemoveAll"),
 	// (e) collection/set.go: the binary search and what rests on it (the collator's RankValues is external)
-	sels("collection/set.go", "set_", pSet, "findIndex", "AddValue", "RemoveValue", "ContainsValue", "GetIndex", "GetSize", "GetValue", "IsEmpty", "AsArray"),
+	sels("collection/set.go", "set_", pSet, "findIndex", "AddValue", "RemoveValue", "ContainsValue", "GetIndex", "GetSize", "GetValue", "IsEmpty", "AsArray",
+		"AddValues", "RemoveValues", "RemoveAll"),
+	// (f) agent/sorter.go: the bottom-up merge sort and the reversal, in place in the caller's slice (written-back
+	// slice parameters); the Sort/Reverse methods of array_ and list_ that delegate to it
+	sels("agent/sorter.go", "sorter_", pSort, "SortValues", "sortValues", "mergeArrays", "ReverseValues"),
+	sels("agent/sorter.go", "sorterClass_", pSort, "Make", "MakeWithRanker", "DefaultRanker"),
+	sels("collection/array.go", "array_", pSort, "SortValues", "SortValuesWithRanker", "ReverseValues"),
+	sels("collection/list.go", "list_", pSort, "SortValues", "SortValuesWithRanker", "ReverseValues"),
 	// (d) the remaining rebuild loops of list.go
-	sels("collection/list.go", "list_", pSeq1, "GetValues", "SetValue", "SetValues", "AppendValue", "AppendValues", "InsertValues", "RemoveValues"),
+	sels("collection/list.go", "list_", pSeq1, "GetValues", "SetValue", "SetValues", "AppendValue", "AppendValues", "InsertValues", "RemoveValues",
+		"GetIndex", "ContainsValue", "ContainsAny", "ContainsAll"),
 )
 
 // methods of types that are not translated: calls go to the oracle [ext] of the semantics; their names are
 // always emitted so that coq/GenRep.v can name them
-var externals = [][2]string{{"collator_", "RankValues"}, {"collator_", "CompareValues"}}
+var externals = [][2]string{{"collator_", "RankValues"}, {"collator_", "CompareValues"}, {"collatorClass_", "Make"}}
 
 func concat(ls ...[]sel) []sel {
 	var r []sel
@@ -278,6 +287,19 @@ type aliasEdge struct {
 	loop *ast.Node
 }
 
+type argPass struct {
+	param  string // the root variable of the argument
+	method string // the callee
+	pos    int    // the callee's parameter position
+	at     token.Pos
+}
+
+type argEdge struct {
+	edge   aliasEdge
+	method string
+	pos    int
+}
+
 type write struct {
 	root string
 	pos  token.Pos
@@ -308,6 +330,10 @@ type ftrans struct {
 	recvWrites  []token.Pos
 	recvCalls   []string
 	paramWrites []write
+	sliceParams map[string]int // parameters of slice type []T -> position (1, 2, ..)
+	argPasses   []argPass      // slice-typed parameter (or a segment of it) passed on to a method
+	argEdges    []argEdge      // alias edges that exist only if the callee keeps its parameter
+	swapped     map[string]bool
 }
 
 // a method or type name: kept (a renamed method or type is an API change)
@@ -479,6 +505,29 @@ func (t *ftrans) scalarExpr(e ast.Expr) bool {
 	return false
 }
 
+// is the assignment  x1, .., xn = y1, .., yn  with plain variables on both sides, the ys a permutation of the xs?
+func (t *ftrans) isPermutation(x *ast.AssignStmt) bool {
+	if len(x.Lhs) != len(x.Rhs) || len(x.Lhs) < 2 {
+		return false
+	}
+	count := map[string]int{}
+	for i := range x.Lhs {
+		l, ok1 := x.Lhs[i].(*ast.Ident)
+		r, ok2 := x.Rhs[i].(*ast.Ident)
+		if !ok1 || !ok2 || t.lookupVar(l.Name) == nil || t.lookupVar(r.Name) == nil {
+			return false
+		}
+		count[l.Name]++
+		count[r.Name]--
+	}
+	for _, c := range count {
+		if c != 0 {
+			return false
+		}
+	}
+	return true
+}
+
 func (t *ftrans) curLoops() []ast.Node { return append([]ast.Node(nil), t.loopStack...) }
 
 func (t *ftrans) noteAlias(dst string, src ast.Expr, pos token.Pos) {
@@ -584,6 +633,9 @@ func (t *ftrans) expr(e ast.Expr) string {
 			return "(EBool false)"
 		case x.Name == "nil":
 			return "ENil"
+		}
+		if k, ok := t.pf.consts[x.Name]; ok {
+			return fmt.Sprintf("(EInt %d%%Z)", k) // an enumeration constant (const .. = iota) of this package
 		}
 		fail(x.Pos(), "identifier %q is not a local variable, parameter or receiver", x.Name)
 	case *ast.SelectorExpr:
@@ -721,7 +773,8 @@ func (t *ftrans) call(c *ast.CallExpr) string {
 			fail(c.Pos(), "call of %s.%s is outside the subset", f.X.(*ast.Ident).Name, f.Sel.Name)
 		}
 		if t.pf.fieldName[f.Sel.Name] {
-			fail(c.Pos(), "call of a function-valued field is outside the subset")
+			// v.ranker_(a, b): the field holds a function value (a method value in the semantics)
+			return "(ECallVal " + t.expr(f) + " " + t.exprs(c.Args) + ")"
 		}
 		if r := t.rootOf(f.X); r != "" {
 			t.writes = append(t.writes, write{root: r, pos: c.Pos(), method: f.Sel.Name})
@@ -731,8 +784,19 @@ func (t *ftrans) call(c *ast.CallExpr) string {
 				t.paramWrites = append(t.paramWrites, write{root: r, pos: c.Pos(), method: f.Sel.Name})
 			}
 		}
-		for _, a := range c.Args {
-			t.noteAlias("(argument of "+f.Sel.Name+")", a, a.Pos())
+		for i, a := range c.Args {
+			// an argument aliases the callee's parameter only for the duration of the call, unless the callee keeps it
+			// (decided later, by method name: see aliasErrors)
+			if r, isRef := t.refSource(a); isRef {
+				var lp *ast.Node
+				if n := len(t.loopStack); n > 0 {
+					lp = &t.loopStack[0]
+				}
+				t.argEdges = append(t.argEdges, argEdge{aliasEdge{a: "(argument of " + f.Sel.Name + ")", b: r, pos: a.Pos(), loop: lp}, f.Sel.Name, i + 1})
+			}
+			if r := t.rootOf(a); r != "" {
+				t.argPasses = append(t.argPasses, argPass{r, f.Sel.Name, i + 1, a.Pos()})
+			}
 		}
 		return "(ECall " + t.expr(f.X) + " " + t.id(f.Sel.Name) + " " + t.exprs(c.Args) + ")"
 	}
@@ -862,8 +926,14 @@ func (t *ftrans) stmt(s ast.Stmt) string {
 		case x.Tok == token.ASSIGN:
 			rhs := t.exprs(x.Rhs)
 			var ls []string
+			perm := t.isPermutation(x)
 			for i, l := range x.Lhs {
 				ls = append(ls, t.assignTarget(l))
+				if perm {
+					// a, b = b, a: the variables exchange what they refer to; no storage becomes shared
+					t.swapped[l.(*ast.Ident).Name] = true
+					continue
+				}
 				if len(x.Rhs) == len(x.Lhs) {
 					t.noteAlias(t.rootOf(l), x.Rhs[i], l.Pos())
 					if id, ok := l.(*ast.Ident); ok {
@@ -1035,7 +1105,7 @@ func translate(pf *pkgFacts, fset *token.FileSet, fd *ast.FuncDecl, file *ast.Fi
 			panic(r)
 		}
 	}()
-	t := &ftrans{pf: pf, fset: fset, imports: map[string]bool{}, ids: ids, stmtLoops: map[token.Pos][]ast.Node{}}
+	t := &ftrans{pf: pf, fset: fset, imports: map[string]bool{}, ids: ids, stmtLoops: map[token.Pos][]ast.Node{}, sliceParams: map[string]int{}, swapped: map[string]bool{}}
 	for _, im := range file.Imports {
 		if im.Name != nil {
 			t.imports[im.Name.Name] = true
@@ -1084,6 +1154,9 @@ func translate(pf *pkgFacts, fset *token.FileSet, fd *ast.FuncDecl, file *ast.Fi
 		}
 		for _, n := range p.Names {
 			t.declare(n, scalarType(p.Type, t.tparams))
+			if at, ok := p.Type.(*ast.ArrayType); ok && at.Len == nil {
+				t.sliceParams[n.Name] = len(t.params) + 1
+			}
 			t.params = append(t.params, n.Name)
 			params = append(params, t.local(n.Pos(), n.Name))
 		}
@@ -1109,7 +1182,7 @@ func translate(pf *pkgFacts, fset *token.FileSet, fd *ast.FuncDecl, file *ast.Fi
 	}
 	t.id(t.recvType)
 	t.id(fd.Name.Name)
-	term := fmt.Sprintf("{| fn_recv := %s; fn_params := %s;\n     fn_body := %s |}", t.local(rf.Pos(), t.recvVar), list(params), body)
+	term := fmt.Sprintf("{| fn_recv := %s; fn_params := %s; fn_wb := @WB@;\n     fn_body := %s |}", t.local(rf.Pos(), t.recvVar), list(params), body)
 	var src bytes.Buffer
 	start, end := fset.Position(fd.Pos()), fset.Position(fd.End())
 	data, _ := os.ReadFile(start.Filename)
@@ -1153,17 +1226,94 @@ func readOnlyNames(fns []*fnOut) map[string]bool {
 // Conservative check per function: after (or in the same loop as) a statement that copies a reference
 // out of a place (an "alias edge" a <- b), nothing may be written through a or b; a function may not
 // write through a parameter (the caller would not see it).
-func aliasErrors(f *fnOut, ro map[string]bool) []terr {
+// Which slice parameters does a function write through (directly, by exchanging them with another variable, or by
+// passing them or a segment of them on to such a parameter of a callee)?  By method name, as a fixpoint.
+func writtenParams(fns []*fnOut) map[string]map[int]bool {
+	wb := map[string]map[int]bool{}
+	set := func(m string, p int) bool {
+		if wb[m] == nil {
+			wb[m] = map[int]bool{}
+		}
+		if wb[m][p] {
+			return false
+		}
+		wb[m][p] = true
+		return true
+	}
+	for changed := true; changed; {
+		changed = false
+		for _, f := range fns {
+			t := f.trans
+			for name, pos := range t.sliceParams {
+				hit := t.swapped[name]
+				for _, w := range t.paramWrites {
+					if w.root == name && w.method == "" {
+						hit = true
+					}
+				}
+				for _, ap := range t.argPasses {
+					if ap.param == name && wb[ap.method][ap.pos] {
+						hit = true
+					}
+				}
+				if hit && set(f.Method, pos) {
+					changed = true
+				}
+			}
+		}
+	}
+	return wb
+}
+
+// Does a method keep a parameter beyond the call (store it, return it, copy it into another variable)?
+func keptParams(fns []*fnOut) map[string]map[int]bool {
+	kept := map[string]map[int]bool{}
+	for _, f := range fns {
+		t := f.trans
+		for i, name := range t.params {
+			for _, e := range t.edges {
+				if e.b == name {
+					if kept[f.Method] == nil {
+						kept[f.Method] = map[int]bool{}
+					}
+					kept[f.Method][i+1] = true
+				}
+			}
+		}
+	}
+	return kept
+}
+
+// Value semantics agree with Go unless two live names share storage while one of them is written.
+// Conservative check per function: after (or in the same loop as) a statement that copies a reference
+// out of a place (an "alias edge" a <- b), nothing may be written through a or b.  Writes through a parameter are
+// allowed only for parameters of slice type (element writes, copy): those are handed back to the caller (fn_wb).
+func aliasErrors(f *fnOut, ro map[string]bool, wb, kept map[string]map[int]bool, known map[string]bool) []terr {
 	t := f.trans
 	var errs []terr
 	isWrite := func(w write) bool { return w.method == "" || !ro[w.method] }
 	for _, w := range t.paramWrites {
+		if _, slice := t.sliceParams[w.root]; slice && w.method == "" {
+			continue
+		}
 		if isWrite(w) {
-			errs = append(errs, terr{w.pos, fmt.Sprintf("writes through the parameter %q (a caller-visible effect that value semantics would lose)", w.root)})
+			errs = append(errs, terr{w.pos, fmt.Sprintf("writes through the parameter %q, which is not of a slice type (a caller-visible effect that value semantics would lose)", w.root)})
 		}
 	}
-	for _, e := range t.edges {
-		for _, w := range t.writes {
+	edges := append([]aliasEdge(nil), t.edges...)
+	for _, ae := range t.argEdges {
+		if !known[ae.method] || kept[ae.method][ae.pos] {
+			edges = append(edges, ae.edge)
+		}
+	}
+	writes := append([]write(nil), t.writes...)
+	for _, ap := range t.argPasses {
+		if wb[ap.method][ap.pos] {
+			writes = append(writes, write{root: ap.param, pos: ap.at})
+		}
+	}
+	for _, e := range edges {
+		for _, w := range writes {
 			if !isWrite(w) || (w.root != e.a && w.root != e.b) {
 				continue
 			}
@@ -1255,9 +1405,26 @@ func main() {
 		fns = append(fns, fo)
 	}
 	ro := readOnlyNames(fns)
+	wbs := writtenParams(fns)
+	keptP := keptParams(fns)
+	known := map[string]bool{}
+	for _, f := range fns {
+		known[f.Method] = true
+	}
+	for _, f := range fns {
+		var ps []string
+		for p := 1; p <= len(f.trans.params); p++ {
+			if wbs[f.Method][p] {
+				if _, ok := f.trans.sliceParams[f.trans.params[p-1]]; ok {
+					ps = append(ps, fmt.Sprint(p))
+				}
+			}
+		}
+		f.term = strings.Replace(f.term, "@WB@", list(ps), 1)
+	}
 	var kept []*fnOut
 	for _, f := range fns {
-		aes := aliasErrors(f, ro)
+		aes := aliasErrors(f, ro, wbs, keptP, known)
 		if len(aes) > 0 {
 			p := fset.Position(aes[0].pos)
 			errs = append(errs, errOut{f.Type, f.Method, fmt.Sprintf("%s:%d", f.File, p.Line), aes[0].msg, f.Props})
